@@ -1,6 +1,6 @@
 //! Pass P: serialise the (polymorphic) MIR of every body of a first-party crate to JSON,
 //! with resolved callees. Dominators, dataflow etc. are computed in Python.
-use crate::hir_dump::{def_str, expn_str, span_str, trunc, ty_str};
+use crate::hir_dump::{def_str, expn_chain, expn_str, span_str, trunc, ty_str};
 use crate::json::J;
 use crate::obj;
 use rustc_hir::def::DefKind;
@@ -260,6 +260,9 @@ impl<'tcx> M<'tcx> {
             if let J::Obj(f) = &mut t {
                 f.push(("sp", sp));
                 f.push(("exp", exp));
+                if let Some(c) = expn_chain(term.source_info.span) {
+                    f.push(("expc", J::s(c)));
+                }
             }
             bbs.push(obj! {"st": J::Arr(st), "t": t, "cleanup": if data.is_cleanup { J::Bool(true) } else { J::Null }});
         }
